@@ -111,7 +111,10 @@ def generate(seed: int, tier: str) -> Dict[str, Any]:
             ops.append({"op": "clock", "ms": r.choice([1, 1000, 3_600_000, -5000, -86_400_000])})
     if not any(o["op"] == "load" for o in ops):
         ops.append({"op": "load"})
-    return {"wmin": lo, "wmax": hi, "ops": ops}
+    # what an older build (or a restore) may have left in the directory: sidecars with another schema marker, for agents that
+    # are about to be written again
+    stale = sorted({o["agent"] for o in ops if o["op"].startswith("write") and "/" not in o["agent"] and "\\" not in o["agent"] and r.chance(0.25)})
+    return {"wmin": lo, "wmax": hi, "ops": ops, "stale_sidecars": stale}
 
 
 class _W:
@@ -159,6 +162,11 @@ def execute(p: Dict[str, Any]) -> Dict[str, Any]:
         with E.EngineEnv(root, clock) as ee:
             cfg = {"t4": {"snapshot_dir": ee.snap, "weight_min": lo, "weight_max": hi, "snapshot_every_n_turns": 1}}
             written: Dict[str, Dict[str, Any]] = {}  # file name -> last completed write
+            for ag in p.get("stale_sidecars") or []:
+                os.makedirs(ee.snap, exist_ok=True)
+                with open(os.path.join(ee.snap, "state_%s.json.meta" % ag.replace("%", "%25")), "w", encoding="utf-8") as fh:
+                    json.dump({"schema_version": "v0", "created_at": "2001-01-01T00:00:00Z", "note": "left by an older build"}, fh)
+                stats["stale_sidecars"] = stats.get("stale_sidecars", 0) + 1
             for oi, op in enumerate(p["ops"]):
                 stats["evaluations"] = stats.get("evaluations", 0) + 1
                 k = op["op"]
